@@ -903,9 +903,14 @@ imag = _ufunc1(np.imag, _imag)
 conj = _ufunc1(np.conj, lambda v: v.conjugate() if isinstance(v, SVal) else v)
 abs_ = _ufunc1(np.abs, s_abs)
 sqrt = _ufunc1(np.sqrt, s_sqrt)
-tanh = _ufunc1(np.tanh, lambda v: s_fun("tanh", v))
-cosh = _ufunc1(np.cosh, lambda v: s_fun("cosh", v))
-sinh = _ufunc1(np.sinh, lambda v: s_fun("sinh", v))
+def _sym():
+    from . import sym
+    return sym
+
+
+tanh = _ufunc1(np.tanh, lambda v: _sym().s_tanh(v))
+cosh = _ufunc1(np.cosh, lambda v: _sym().s_cosh(v))
+sinh = _ufunc1(np.sinh, lambda v: _sym().s_sinh(v))
 exp = _ufunc1(np.exp, lambda v: s_fun("exp", v, nonzero=True, positive=True))
 log = _ufunc1(np.log, lambda v: s_fun("log", v))
 log10 = _ufunc1(np.log10, lambda v: s_fun("log10", v))
